@@ -236,7 +236,7 @@ class TemplateEvaluator:
             if isinstance(st, ast.If):
                 for pol, body in ((True, st.body), (False, st.orelse)):
                     e2 = self.clone(em)
-                    e2.conds.append((st.test, pol))
+                    e2.conds.append((self.subst(st.test, env), pol))
                     run(list(body) + rest, e2, dict(env), k)
                 return
             if isinstance(st, ast.For):
